@@ -52,6 +52,7 @@ type vfPairRun struct {
 	propagate   bool                                    // stop the peer when one role returns an error
 }
 
+
 func vfCurCase(test string, cs any) {
 	if p := os.Getenv("VERIF_CURCASE"); p != "" {
 		b, _ := json.Marshal(map[string]any{"test": test, "case": cs})
